@@ -39,7 +39,7 @@ class Ob:
 
     def __init__(self, name, harness, defs=(), unwindset=None, unwind=None, checks="functional",
                  timeout=300, paths=False, flags=(), cc=(), object_bits=None, mem_gb=12, sample=None,
-                 extra_src=(), native_cc=(), solver=None, loops=None):
+                 extra_src=(), native_cc=(), solver=None, loops=None, entry=None):
         self.name = name
         self.harness = harness          # path relative to /verif/harness or absolute
         self.defs = list(defs)          # -D flags (without -D)
@@ -59,6 +59,7 @@ class Ob:
         # loops: {"function#k": bound} - k-th loop of the function in SOURCE order (stable under edits
         # elsewhere in the file); resolved to CBMC loop ids with --show-loops after the build
         self.loops = dict(loops or {})
+        self.entry = entry              # cbmc --function <entry>; replay build gets -DH_ENTRY=<entry>
         # results
         self.verdict = None
         self.detail = ""
@@ -158,6 +159,8 @@ def cbmc_cmd(ob, gb, extra=()):
         cmd += ["--unwindset", ",".join("%s:%d" % kv for kv in sorted(uw.items()))]
     if ob.unwind is not None:
         cmd += ["--unwind", str(ob.unwind)]
+    if ob.entry:
+        cmd += ["--function", ob.entry]
     if ob.paths:
         cmd += ["--paths", "lifo"]
     if ob.object_bits:
@@ -183,13 +186,13 @@ def parse_results(out):
 
 
 def build_native(ob, scratch):
-    key = hashlib.sha1(("%s|%s|%s|native" % (ob.hpath(), ob.defs, ob.cc)).encode()).hexdigest()[:16]
+    key = hashlib.sha1(("%s|%s|%s|%s|native" % (ob.hpath(), ob.defs, ob.cc, ob.entry)).encode()).hexdigest()[:16]
     exe = os.path.join(scratch, key + ".replay")
     if os.path.exists(exe):
         return exe, ""
     cmd = ["gcc", "-g", "-O0", "-w", "-fsanitize=address,undefined", "-fno-sanitize-recover=undefined",
            "-fno-sanitize=shift-base,signed-integer-overflow,alignment",  # MIR relies on wrap/arith shifts; see DESIGN
-           "-DREPLAY"] + CC_FLAGS + ["-D" + d for d in ob.defs] + ob.cc + ob.native_cc + \
+           "-DREPLAY"] + (["-DH_ENTRY=" + ob.entry] if ob.entry else []) + CC_FLAGS + ["-D" + d for d in ob.defs] + ob.cc + ob.native_cc + \
           ["-o", exe + ".tmp", ob.hpath()] + ob.extra_src + ["-lm", "-ldl", "-lpthread"]
     rc, out, _ = run(cmd, 600, 16)
     if rc != 0:
@@ -208,7 +211,7 @@ def replay(ob, scratch, trace_out, tag):
     safe = re.sub(r"[^A-Za-z0-9_.-]", "_", "%s.%s" % (ob.name, tag))
     path = os.path.join(rdir, safe + ".nd")
     with open(path, "w") as f:
-        f.write("# harness=%s defs=%s\n" % (ob.harness, " ".join(ob.defs)))
+        f.write("# prop=%s tier=%s ob=%s harness=%s\n" % (getattr(ob, "prop", ""), getattr(ob, "tier", ""), ob.name, ob.harness))
         for k in sorted(vals):
             f.write("%d %x\n" % (k, vals[k]))
     with open(path + ".trace", "w") as f:
@@ -401,10 +404,24 @@ def finish(prop_id, tier, obs, level, meta, t_start, scratch, extra_cov=None):
     return 0
 
 
-def run_all(prop_id, tier, obs, level, meta, extra_cov=None, jobs=None):
+_prepare = [None]
+
+
+def set_prepare(fn):
+    """Register prepare(tier, scratch) -> [Ob]: generates per-run inputs (corpus, dumps) into scratch."""
+    _prepare[0] = fn
+
+
+def run_all(prop_id, tier, obs, level, meta, extra_cov=None, jobs=None, only=None):
     t0 = time.time()
     scratch = tempfile.mkdtemp(prefix="verif-%s-" % prop_id)
     try:
+        if obs is None:
+            obs = _prepare[0](tier, scratch)
+        if only:
+            obs = [o for o in obs if only in o.name]
+        for o in obs:
+            o.prop, o.tier = prop_id, tier
         # build distinct goto binaries first (in parallel), then run the queries
         keys = {}
         for ob in obs:
@@ -422,17 +439,22 @@ def run_all(prop_id, tier, obs, level, meta, extra_cov=None, jobs=None):
         shutil.rmtree(scratch, ignore_errors=True)
 
 
-def replay_file(path):
-    """./check <ID> --replay <path>: rebuild the harness natively (ASan/UBSan) and re-run the recorded inputs."""
+def replay_file(path, prepare=None, obligations=None):
+    """./check <ID> --replay <path>: regenerate the obligation, rebuild the harness natively (ASan/UBSan)
+    against /repo's working tree and re-run the recorded inputs.  Exit 1 if the violation reproduces."""
     hdr = open(path).readline()
-    m = re.match(r"# harness=(\S+) defs=(.*)$", hdr.strip())
+    m = re.match(r"# prop=(\S*) tier=(\S*) ob=(\S+) harness=(\S+)", hdr.strip())
     if not m:
         print("not a replay file: " + path)
         return 2
-    ob = Ob("replay", m.group(1), defs=m.group(2).split())
     scratch = tempfile.mkdtemp(prefix="verif-replay-")
     try:
-        exe, err = build_native(ob, scratch)
+        obs = prepare(m.group(2), scratch) if prepare else obligations(m.group(2))
+        ob = [o for o in obs if o.name == m.group(3)]
+        if not ob:
+            print("obligation %s not found" % m.group(3))
+            return 2
+        exe, err = build_native(ob[0], scratch)
         if exe is None:
             print(err)
             return 2
